@@ -158,6 +158,26 @@ func c10caseKey(c *core.Check) {
 		c.Unknown("read-case-label-equals-switch", key, c.Prog.Rel(fd.Pos()), "the emitted switch header or case label was not found")
 		return
 	}
+	// a label computed by a package-local helper whose body is a single return is read through the helper (three levels)
+	for depth := 0; depth < 3; depth++ {
+		call, ok := ast.Unparen(label).(*ast.CallExpr)
+		if !ok {
+			break
+		}
+		fn := rules.Callee(info, call)
+		if fn == nil || fn.Pkg() == nil || fn.Pkg() != c.Prog.Pkg(fastgoRel).Types || fn.Type().(*types.Signature).Recv() != nil {
+			break
+		}
+		hd := c.Prog.FuncDecl(fastgoRel, fn.Name())
+		if hd == nil || hd.Body == nil || len(hd.Body.List) != 1 {
+			break
+		}
+		ret, ok := hd.Body.List[0].(*ast.ReturnStmt)
+		if !ok || len(ret.Results) != 1 {
+			break
+		}
+		label = ret.Results[0]
+	}
 	sw, err := parser.ParseExpr(switchSrc)
 	if err != nil {
 		c.Unknown("read-case-label-equals-switch", key, c.Prog.Rel(fd.Pos()), "switch expression does not parse: "+switchSrc)
